@@ -178,7 +178,9 @@ def cases_c12(limit, rng):
         if n >= 4:
             cs.append(("weighted", dict(n=n, W=W, size=size, seed=seed, epoch=ep, zeros=2)))
     for labels in ([0, 1], [0, 0, 1], [0, 1, 1, 1, 0], [0, 1, 2, 2, 1, 0, 0], [1, 0, 0, 0, 0, 0]):
-        for spc, W, sh, seed in itertools.product((None, 1, 3, 5), (1, 2, 3), (True, False), (0, 1)):
+        for spc, W, sh, seed in itertools.product((None, 1, 3, 5, 7, 13), (1, 2, 3), (True, False), (0, 1, 2, 3)):
+            if (spc in (7, 13) and not sh and seed > 0) or (seed > 1 and spc not in (7, 13)):
+                continue        # heavy oversampling (several whole passes + a cut last pass) is explored with more seeds, shuffled
             cs.append(("class_balanced", dict(labels=labels, n_classes=max(labels) + 1, spc=spc, W=W, shuffle=sh, seed=seed, epoch=seed)))
     rng.shuffle(cs)
     return cs[:limit]
